@@ -15,7 +15,7 @@ variable (c : Crypto)
     connection on `msg_len < 2`; the sender refuses `> LN_MAX_MSG_LEN`) -/
 def MsgsOK (msgs : List Bytes) : Prop := ∀ m ∈ msgs, 2 ≤ m.length ∧ m.length ≤ Ldk.LN_MAX_MSG_LEN
 
-theorem msgsOK_iff (msgs : List Bytes) :
+private theorem msgsOK_iff (msgs : List Bytes) :
     MsgsOK msgs ↔ ∀ m ∈ msgs, 2 ≤ m.length ∧ m.length ≤ 65535 := Iff.rfl
 
 /-- **Reassembly.** However a byte string is cut into `read_event` calls, the receiver ends in the
@@ -274,12 +274,12 @@ def toy : Crypto where
   pubOf a := List.replicate 33 (a.headD 2)
   validPub _ := true
 
-theorem toy_aeadOK : AeadOK toy where
+private theorem toy_aeadOK : AeadOK toy where
   open_seal k n ad m := by
     simp [toy, toyTag]
   seal_len k n ad m := by simp [toy, toyTag]
 
-theorem toy_authentic : Authentic toy := by
+private theorem toy_authentic : Authentic toy := by
   intro k n ad box m h
   simp only [toy] at h ⊢
   split at h
@@ -289,7 +289,7 @@ theorem toy_authentic : Authentic toy := by
     rw [hcond.2]
   · cases h
 
-theorem toy_handshakeOK : HandshakeOK toy where
+private theorem toy_handshakeOK : HandshakeOK toy where
   aead := toy_aeadOK
   ecdh_comm _ _ := rfl
   pub_len _ := by simp [toy]
